@@ -30,6 +30,8 @@ C["C03"]["jobs"]+= [job("pin-ffffffff",".","VH_Reassembler",["C03/"],{"k":3,"max
 C["C10"]=reasm("C10")
 c19=[job("nil-stream",".","VH_ReassemblerNilStream",["C19/"],bounds="symbolic maxInFlight (8 bit) and timeout (64 bit)"),
      job("api-k3-inf",".","VH_Reassembler",["C19/"],{"k":3,"maxInFlight":2},Q,bounds="k=3 then Close, post-Close Maintain/Close; infinite timeout")]
+c19.append(job("api-k3-maxduration",".","VH_Reassembler",["C19/"],{"k":3,"maxInFlight":2,"timeout_mode":6},Q,bounds="k=3 then Close; timeout = the largest time.Duration (2^63-1 ns)"))
+c19.append(job("api-k3-250years",".","VH_Reassembler",["C19/"],{"k":3,"maxInFlight":1,"timeout_mode":7},Q,bounds="k=3 then Close; timeout = 250 years"))
 for tm,name in [(1,"-1s"),(2,"0"),(3,"5ms"),(4,"2s")]:
     c19.append(job("clock-k2-"+name,".","VH_Reassembler",["C19/"],{"k":2,"maxInFlight":1,"timeout_mode":tm},QO,clock="sym",
                bounds=f"k=2 operations, maxInFlight=1, timeout {name}, every time.Now() reading symbolic and non-decreasing"))
@@ -37,7 +39,7 @@ for tm,name in [(1,"-1s"),(2,"0"),(3,"5ms"),(4,"2s")]:
         c19.append(job(f"clock-k3-{name}-mif{mif}",".","VH_Reassembler",["C19/"],{"k":3,"maxInFlight":mif,"timeout_mode":tm},T,clock="sym",
                bounds=f"k=3 operations, maxInFlight={mif}, timeout {name}, symbolic clock"))
 C["C19"]={"jobs":c19,"assumptions":["single goroutine","clock stub: each time.Now() returns an arbitrary wall-clock instant (symbolic seconds within 2^31 of a base, symbolic nanoseconds) not earlier than the previous reading",
-   "timeouts enumerated: -1s, 0, 5ms, 2s (clock jobs) and 10^6 h","boundary instant t = created+timeout and expiry during a call are left free in both directions (the property does not fix them)"],
+   "timeouts enumerated: -1s, 0, 5ms, 2s (clock jobs) and 10^6 h, 250 years, 2^63-1 ns (constant clock)","boundary instant t = created+timeout and expiry during a call are left free in both directions (the property does not fix them)"],
    "outside":["monotonic-clock readings (the stub returns wall-only instants)","Duration values not in the list","real sleeping; native replay cannot force clock readings, so clock-dependent counterexamples are confirmed in the engine's concrete mode"]}
 
 CLIENT_ASSUME=["the kernel is a harness-side simulation implementing NetlinkSendReceiver (no socket is opened); replies are handed out through the real parseNetlinkAuditMessage",
@@ -61,6 +63,10 @@ for a,b in [(5,0),(0,1),(2,3),(8,5)]:
 for pat,pn in [(0,"eintr"),(1,"eagain"),(2,"alternating")]:
     for jj in ([0,9,10] if pat==0 else [9,10]):
         c08.append(job(f"retry-{pn}-{jj}",".","VH_ClientRetry",["C08/"],{"j":jj,"pattern":pat},Q,bounds=f"exactly {jj} consecutive transient failures ({pn}) then the ACK with symbolic errno"))
+for name,pr in [("9fail-1rec",{"j":9,"r2":1}),("1rec-9fail",{"r1":1,"j":9}),("9fail-1rec-9fail",{"j":9,"r2":1,"j2":9}),("12rec",{"j":0,"r1":12}),("5rec-5fail-5rec",{"r1":5,"j":5,"r2":5}),("3rec-9fail-3rec-9fail-3rec",{"r1":3,"j":9,"r2":3,"j2":9,"r3":3})]:
+    for pat,pn in [(0,"eintr"),(1,"eagain")]:
+        d=dict(pr); d["pattern"]=pat
+        c08.append(job(f"mixed-{name}-{pn}",".","VH_ClientRetry",["C08/"],d,Q if pat==0 else T,bounds=f"unsolicited records (symbolic type/payload) and runs of <=9 transient failures ({pn}) before the ACK with symbolic errno: {name}"))
 C["C08"]={"jobs":c08,"assumptions":CLIENT_ASSUME,"outside":["the real kernel and socket","more than 2 unsolicited records per wait","Receive returning several messages at once","rule payloads longer than 3-4 bytes (content is only copied)"]}
 C["C16"]={"jobs":[job("setters",".","VH_ClientSetters",["C16/"],{},Q,bounds="7 setters x both wait modes with full-range symbolic arguments (uint32/int32/bool/FailureMode), GetStatus request"),
    job("constants",".","VH_Constants",["C16/"],{},Q,bounds="closed terms: exported constants against UAPI values (linux/audit.h)"),
@@ -68,7 +74,7 @@ C["C16"]={"jobs":[job("setters",".","VH_ClientSetters",["C16/"],{},Q,bounds="7 s
    job("wire-100",".","VH_StatusWire",["C16/"],{"maxlen":0,"long":1},Q,bounds="FromWireFormat: buffer length 100")],
    "assumptions":CLIENT_ASSUME+["UAPI constants transcribed from /usr/include/linux/audit.h of this image (see harness constants vUAPI_*)"],"outside":["the live kernel"]}
 C["C17"]={"jobs":[job("history-k3",".","VH_ClientHistory",["C17/"],{"k":3},QO,bounds="histories of 3 operations from {setter NoWait, SetPID NoWait, setter WaitForReply, WaitForPendingACKs, GetRules, Close}, kernel errno per request symbolic"),
-   job("history-k4",".","VH_ClientHistory",["C17/"],{"k":4},T,bounds="histories of 4 operations"),job("history-k5",".","VH_ClientHistory",["C17/"],{"k":5},T,bounds="histories of 5 operations")],
+   job("history-k4",".","VH_ClientHistory",["C17/"],{"k":4},Q,bounds="histories of 4 operations"),job("history-k5",".","VH_ClientHistory",["C17/"],{"k":5},T,bounds="histories of 5 operations")],
    "assumptions":CLIENT_ASSUME+["domain: reply-waiting commands (WaitForReply setters, GetRules) are issued only when no NoWait ACK is outstanding","the simulated kernel reuses one receive buffer"],
    "outside":["concurrent Close (engine threads; see C17 concurrent job when registered)","the live kernel"]}
 
@@ -105,6 +111,13 @@ for i,k in enumerate(KEYS):
     c05.append(job(f"field-{k}","auparse","VH_FieldTotal",["C05/"],{"key":i,"maxlen":ml,"type":KT.get(k,0),"with":KW.get(k,0)},QO,
         bounds=f"{TYPES[KT.get(k,0)]} record with {k}=<v>, v of 0..{ml} symbolic ASCII bytes, unquoted / double- / single-quoted"+(" plus the companion field" if k in KW else "")))
     c05.append(job(f"field5-{k}","auparse","VH_FieldTotal",["C05/"],{"key":i,"maxlen":5 if k!="syscall" else 4,"type":KT.get(k,0),"with":KW.get(k,0)},T,bounds=f"{k}=<v>, v of 0..5 symbolic ASCII bytes (syscall: 0..4)"))
+for na,nn in [(1,"e-acute"),(2,"ff"),(3,"80fe"),(4,"euro")]:
+    for k in ("key","cwd","exe","name","a0","proctitle","saddr"):
+        i=KEYS.index(k)
+        c05.append(job(f"nonascii-{nn}-{k}","auparse","VH_FieldTotal",["C05/"],{"key":i,"maxlen":3,"type":KT.get(k,0),"with":KW.get(k,0),"nonascii":na},Q if na in (1,2) and k in ("key","name","saddr","a0") else T,
+            bounds=f"{k}=<v><non-ASCII bytes {nn}>, v of 0..3 symbolic ASCII bytes, unquoted / quoted"))
+for fn,name in enumerate(["hexToString","hexToStrings","parseSockaddr"]):
+    c05.append(job(f"internal-{name}","auparse","VH_HexInternals",["C05/"],{"fn":fn,"maxlen":4 if fn<2 else 6},Q,bounds=f"{name} on every byte string of 0..{4 if fn<2 else 6} bytes, all 256 values per byte (auxiliary harness on an unexported function)"))
 for L in (0,1,2,3,4,5,8,15,16,17,47,48,49):
     c05.append(job(f"saddr-len{L}","auparse","VH_SaddrTotal",["C05/"],{"len":L,"sym":8},Q if L in (3,4,15,16,48) else T,bounds=f"SOCKADDR saddr of {L} hex digits: family concrete (unix/ipv4/ipv6/netlink) or 4 symbolic digits, next 8 digits symbolic"))
 C["C05"]={"jobs":c05,"assumptions":PARSE_ASSUME,"outside":["inputs longer than the stated lengths","symbolic non-ASCII bytes"]}
